@@ -1,7 +1,7 @@
 """Helpers shared by the per-property rule modules."""
 import re
 
-from ..cfg import Flow, loops, loop_of_stmt, dominators
+from ..cfg import Flow, loops, loop_of_stmt, dominators, CondNorm
 from ..program import plain
 from ..facts import AnalysisBroken
 
@@ -1090,6 +1090,45 @@ def readdir_classification(ctx, tag):
                       "readdir-classification:%s:%s" % (flag, "fast" if any("d_type" in k for k, p in fl.guards(i)) else "fallback"),
                       "sibling_agreement", rd.loc(i), "entries selected by %s go to the returned .%s" % (flag, member),
                       "entries selected by %s are pushed to %s (the d_type-less fallback disagrees with the fast path)" % (flag, tgt))
+
+    # An entry leaves the loop body early (continue) only when it is hidden (leading dot) or was just classified by its d_type: every
+    # other entry - DT_UNKNOWN from a file system that does not fill d_type in, above all - reaches the fstatat fallback, which sits
+    # directly in the loop body (not under a condition).
+    stats = rd.calls("fstatat", "lstat", "stat", "fstat")
+    ls = [l for l in loops(rd) if l["stmt"] is not None and any(x in stats for x in rd.walk(l["stmt"]))]
+    if len(ls) != 1 or not stats:
+        ctx.broken(tag + ":readdir-unknown-type-reaches-stat", "anchor", rd.loc(), "expected one readdir loop with a stat fallback in Fs::readDirFromDIR")
+        return
+    L = ls[0]["stmt"]
+    pushes = set(rd.calls("push_back", "emplace_back"))
+    fl2 = fl
+    conts = [i for i, n in enumerate(rd.nodes) if n["k"] == "continue" and L in list(rd.ancestors(i))]
+    ctx.counters[tag + "_readdir_continue_sites"] = len(conts)
+    ctx.floor(tag + "_readdir_continue_sites", 3, "early continues in the readdir loop (hidden entry, two d_type fast paths)")
+    for i in conts:
+        g = []
+        cn_ = CondNorm(rd, P)
+        for a in rd.ancestors(i):
+            if a == L:
+                break
+            an = rd.nodes[a]
+            if an["k"] == "if" and "c" in an:
+                g += cn_.decompose(an["c"], an.get("then") is not None and (an["then"] == i or i in set(rd.walk(an["then"]))))
+        hidden = any(isinstance(k, str) and p is True and "d_name[0]" in k and "==" in k and re.search(r"\b46\b|'\.'", k) for k, p in g)
+        # lexical: a push in the same compound before the continue
+        par = next(iter(rd.ancestors(i)), None)
+        sib = rd.nodes[par].get("kids", []) if par is not None and rd.nodes[par]["k"] == "compound" else []
+        pushed = any(any(x in pushes for x in rd.walk(k_)) for k_ in sib[:sib.index(i)]) if i in sib else False
+        ctx.check(hidden or pushed, "%s:readdir-unknown-type-reaches-stat:continue@%d" % (tag, rd.nodes[i].get("line", 0)), "must-pass-through (continue sites)", rd.loc(i),
+                  "the entry is skipped because it is hidden, or was classified by d_type just before",
+                  "Fs::readDirFromDIR skips to the next entry at line %d without having classified this one and without the fstatat fallback: on a file system that "
+                  "reports DT_UNKNOWN (or anything the fast path does not know) the entry is silently dropped - child cgroups disappear from the listing"
+                  % rd.nodes[i].get("line", 0))
+    for s_ in stats:
+        conds = [a for a in list(rd.ancestors(s_)) if rd.nodes[a]["k"] in ("if", "switch", "cond")]
+        inside = [a for a in conds if L in list(rd.ancestors(a))]
+        ctx.check(not inside, "%s:readdir-unknown-type-reaches-stat:fallback@%d" % (tag, rd.nodes[s_].get("line", 0)), "must-pass-through (continue sites)", rd.loc(s_),
+                  "the stat fallback is unconditional in the loop body", "the stat fallback of Fs::readDirFromDIR sits under a condition: entries that fail it are never classified")
 
 
 def locals_receiving(fn, pattern, text=None):
